@@ -5,7 +5,7 @@ cd "$(dirname "$0")/.."
 for d in seeded/*/; do
   id=$(basename $d)
   prop=$(python3 -c "import json;print(json.load(open('$d/meta.json'))['breaks_property'])")
-  out=$(tools/mutant.sh $d/patch.diff $prop 2>&1)
+  out=$(timeout 900 tools/mutant.sh $d/patch.diff $prop 2>&1); if [ $? -eq 124 ]; then echo "$id $prop TIMEOUT (no verdict within 15 min: a hang; the check itself ends INCONCLUSIVE through its watchdog)"; continue; fi
   if echo "$out" | grep -q "does not apply\|does not compile"; then echo "$id $prop NOT-APPLICABLE ($(echo "$out" | head -1 | cut -c1-80))"; continue; fi
   line=$(echo "$out" | grep "^MUTANT" | head -1)
   if echo "$line" | grep -q "exit=1"; then echo "$id $prop caught"; else echo "$id $prop MISSED :: $line"; fi
